@@ -184,7 +184,31 @@ class Effects:
                                 self.progress.setdefault(bb, "closure capturing &mut self at %s:%d" % (s["sp"]["f"], s["sp"]["l"]))
 
 
-def verdict_defs(body):
+_FACTS_FOR_VERDICTS = {}
+
+
+def register_facts(facts):
+    """lets verdict_defs() follow `return self.helper()` into crate-local helpers returning Result<BlockRet>"""
+    for b in facts.bodies:
+        _FACTS_FOR_VERDICTS[id(b)] = facts
+
+
+def _helper_verdicts(body, e, bb, depth=0):
+    """verdicts of a tail call `self.helper(..)` whose callee returns Result<BlockRet>: the callee's verdicts, located at
+    the call site"""
+    facts = _FACTS_FOR_VERDICTS.get(id(body))
+    if facts is None or depth > 2 or e is None or e.k != "call":
+        return None
+    for q in (e.rq, e.q):
+        cbs = facts.by_q.get(q, []) if q else []
+        if len(cbs) == 1 and cbs[0].kind != "closure" and cbs[0] is not body:
+            sub = verdict_defs(cbs[0], depth + 1)
+            if sub and all(v != "?" for _, v, _ in sub):
+                return [(bb, v, x) for _, v, x in sub]
+    return None
+
+
+def verdict_defs(body, depth=0):
     """[(bb, verdict, inner_expr)] for every definition of the return value of a work() body.
     verdict in BlockRet variants, 'Err', or '?'."""
     out = []
@@ -222,12 +246,23 @@ def verdict_defs(body):
                 else:
                     for a in p.alts:
                         out.append((bb, a.variant, a))
+            elif p is not None and p.k == "multi" and p.alts and any(a.k == "agg" and a.adt == BLOCKRET for a in p.alts):
+                # some arms build a verdict here, others pass one through (`other => other`): the visible ones are judged
+                for a in p.alts:
+                    if a.k == "agg" and a.adt == BLOCKRET:
+                        out.append((bb, a.variant, a))
+                    else:
+                        out.append((bb, "?", a))
             else:
                 out.append((bb, "?", inner))
         elif e.k == "call" and e.q and e.q.endswith("from_residual"):
             out.append((bb, "Err", e))
         else:
-            out.append((bb, "?", e))
+            hv = _helper_verdicts(body, e, bb, depth)
+            if hv:
+                out.extend(hv)
+            else:
+                out.append((bb, "?", e))
     return out
 
 
